@@ -20,8 +20,11 @@ EXTENDS Naturals, Sequences, FiniteSets, TLC, Json
 
 Styles == {"return", "arg"}
 \* funcVar: a package-level VARIABLE that holds a function of fitting type - callable like any function
-HookKinds == {"ok", "funcVar", "imported", "importedUnexported", "arity0", "arity1", "dstMismatch", "srcMismatch",
-              "twoResults", "nonErrResult", "notFunc", "missing"}
+\* importedBlank: a function of a package that the setup file imports BLANK, for the notation alone, and whose
+\* declared name (hk) is not the last element of its path (hkp/v2)
+HookKinds == {"ok", "funcVar", "imported", "importedBlank", "importedUnexported", "arity0", "arity1", "dstMismatch", "srcMismatch",
+              "twoResults", "nonErrResult", "errImplResult", "notFunc", "missing"}
+\* errImplResult: the single result is a pointer type that IMPLEMENTS error - assigned to err it would never be nil
 \* further parameters of the hook relative to the additional arguments (int, string) of the method:
 \* none; all of them with their types; fewer; other types; "wider": the first one declared as interface{},
 \* to which the method's argument is assignable
@@ -35,13 +38,13 @@ Cfg == [style: Styles, recv: BOOLEAN, srcPtr: BOOLEAN, dstPtr: BOOLEAN, retErr: 
 \* configurations that make sense: extra-parameter variants need additional arguments to relate to;
 \* the shape variants of a broken hook are explored with the simplest pointer/extra choice
 Sensible(c) == /\ (c.nargs = 0 => c.hExtra = "none")
-               /\ (c.kind \notin {"ok", "imported", "funcVar"} => c.hExtra = "none" /\ c.hDstPtr /\ c.hSrcPtr)
+               /\ (c.kind \notin {"ok", "imported", "importedBlank", "funcVar"} => c.hExtra = "none" /\ c.hDstPtr /\ c.hSrcPtr)
                /\ (c.kind = "funcVar" => c.hExtra \in {"none", "all"} /\ ~c.recv)
-               /\ (c.kind \in {"twoResults", "nonErrResult"} => ~c.hErr)
+               /\ (c.kind \in {"twoResults", "nonErrResult", "errImplResult"} => ~c.hErr)
                \* an imported hook needs imported operand types, and an imported source cannot be a receiver (C08)
-               /\ (c.kind \in {"imported", "importedUnexported"} => ~c.recv)
+               /\ (c.kind \in {"imported", "importedBlank", "importedUnexported"} => ~c.recv)
                \* the imported package offers hooks with no or with all additional parameters only
-               /\ (c.kind = "imported" => c.hExtra \in {"none", "all"})
+               /\ (c.kind \in {"imported", "importedBlank"} => c.hExtra \in {"none", "all"})
                /\ (c.argAny => c.nargs = 2 /\ c.kind = "ok" /\ c.hExtra \in {"all", "wider"} /\ c.style = "return" /\ ~c.recv)
                /\ (c.hExtra = "wider" => c.kind = "ok")
                \* a second user of the hook is explored for local hooks, on the plainest method shape
@@ -57,7 +60,7 @@ Reject == fit' = [reject |-> TRUE, call |-> NoCall] /\ pc' = "done"
 \* step 1: lookup and result shape (parser/comment.go lookupManipulatorFunc)
 Lookup ==
   /\ pc = "lookup"
-  /\ IF cfg.kind \in {"missing", "notFunc", "twoResults", "nonErrResult", "arity0", "arity1"}
+  /\ IF cfg.kind \in {"missing", "notFunc", "twoResults", "nonErrResult", "errImplResult", "arity0", "arity1"}
        THEN Reject
        ELSE pc' = "check" /\ UNCHANGED fit
   /\ UNCHANGED cfg
@@ -82,7 +85,7 @@ Render ==
   /\ LET dstIsPtr == cfg.style = "arg" \/ cfg.dstPtr      \* as declared in the generated header
          args == <<Adapt(dstIsPtr, cfg.hDstPtr, "DST"), Adapt(cfg.srcPtr, cfg.hSrcPtr, "SRC")>>
                  \o (IF cfg.hExtra \in {"all", "wider"} THEN <<"ARG0", "ARG1">> ELSE << >>)
-         name == IF cfg.kind = "imported" THEN "ext.Hook" ELSE "Hook" IN
+         name == CASE cfg.kind = "imported" -> "ext.Hook" [] cfg.kind = "importedBlank" -> "hk.Hook" [] OTHER -> "Hook" IN
      fit' = [reject |-> FALSE, call |-> [name |-> name, args |-> args, err |-> cfg.hErr, pos |-> cfg.which]]
   /\ pc' = "done"
   /\ UNCHANGED cfg
@@ -93,7 +96,7 @@ Done == pc = "done"
 
 ----------------------------------------------------------------------------
 (* C10 / C07 on the model *)
-Fits(c) == /\ c.kind \in {"ok", "imported", "funcVar"}
+Fits(c) == /\ c.kind \in {"ok", "imported", "importedBlank", "funcVar"}
            /\ (c.hErr => c.retErr)
            /\ c.hExtra \in {"none", "all", "wider"}
            /\ ~(c.argAny /\ c.hExtra = "all")
